@@ -4,6 +4,7 @@ cd "$(dirname "$0")/.."
 tier="${1:-quick}"; missed=0
 for d in seeded/*/; do
   pid=$(basename "$d" | cut -d- -f1)
+  if grep -q '"caught_by": "neutralised by fix' "$d/meta.json"; then echo "skip   $(basename $d) (an a816 fix: commit made this change harmless)"; continue; fi
   if grep -q '"caught_by": "not caught, by design' "$d/meta.json"; then echo "skip   $(basename $d) (not a violation under the recorded interpretation, DESIGN 7.3)"; continue; fi
   # the check that is recorded as catching it (the property's own check unless the row names another one first)
   by=$(grep -o '"caught_by": "C[0-9][0-9]' "$d/meta.json" | grep -o 'C[0-9][0-9]$'); [ -n "$by" ] && pid="$by"
